@@ -657,7 +657,11 @@ func ReadFile(path string) ([]byte, error) {
 	if err := Begin("read", path); err != nil {
 		return nil, PathErr("read", path, err)
 	}
-	return os.ReadFile(path)
+	b, err := os.ReadFile(path)
+	if err == nil || !os.IsNotExist(err) {
+		log("close", path, "") // no point and no fault: os.ReadFile ignores what close answers
+	}
+	return b, err
 }
 
 // Lstat / Stat
